@@ -535,7 +535,7 @@ func genEnumHistories(rc *recorder, r *rng, n int) {
 			case k < 6:
 				nm, idx := r.below(8), pickIdx(r)
 				ops = append(ops, fmt.Sprintf("A:%d:%d", nm, idx))
-				v := acmelib.NewSignalEnumValue(fmt.Sprintf("v%d", nm), idx)
+				v := acmelib.NewSignalEnumValue(fmt.Sprintf("Val_%d", nm), idx)
 				if err := e.AddValue(v); err != nil {
 					ok = false
 				} else {
@@ -621,7 +621,7 @@ func genEnumDecode(rc *recorder, r *rng, n int) {
 			}
 			used[idx] = true
 			nm := len(vals)
-			if err := e.AddValue(acmelib.NewSignalEnumValue(fmt.Sprintf("v%d", nm), idx)); err != nil {
+			if err := e.AddValue(acmelib.NewSignalEnumValue(fmt.Sprintf("Val_%d", nm), idx)); err != nil {
 				panic(err)
 			}
 			vals = append(vals, ev{nm, idx})
@@ -689,7 +689,7 @@ func genEnumDecode(rc *recorder, r *rng, n int) {
 			if pan != "" {
 				obs = "panic"
 			} else if got != "" {
-				obs = strings.TrimPrefix(got, "v")
+				obs = strings.TrimPrefix(got, "Val_")
 			}
 			line := rc.emit("enum-decode", exp != "-1", sb.String(), obs)
 			if typeBad != "" {
